@@ -62,7 +62,8 @@ class PedanticBufferReader {
     if (length_bytes > (size_ - index_))
       return ErrorStatus::ReadLimitReached;
 
-    std::memcpy(begin, &buffer_[index_], length_bytes);
+    if (length_bytes > 0)
+      std::memcpy(begin, &buffer_[index_], length_bytes);
     index_ += length_bytes;
     return {};
   }
